@@ -63,7 +63,6 @@ theorem increase_upnl (p : Position) (t : Trade) :
     (p.increase t).pnlUnrealised = estimate (p.increase t) t.price := by
   rw [estimate_eq_calculate]
   simp only [Position.increase, Position.updatePnlUnrealised]
-  by_cases h : p.quantityAbs + abs t.quantity > p.quantityAbsMax <;> simp [h]
 
 theorem reduce_upnl (p : Position) (t : Trade) :
     (p.reduce t).pnlUnrealised = estimate (p.reduce t) t.price := by
@@ -148,5 +147,190 @@ theorem rel_market {i : Nat} {c : InstrumentState} {s : SpecI} (h : Rel i c s) (
         refine ⟨⟨pr, .market⟩, rfl, ?_, ?_⟩
         · intro h; cases h
         · intro _; rw [updatePnlUnrealised_eq]; rfl
+
+/-- The remainder position of a flip at the fill price: unrealised PnL 0, estimate minus its entry
+fees. -/
+theorem flip_estimate (p : Position) (t : Trade) (hlt : p.quantityAbs < abs t.quantity) :
+    (p.flip t).1.pnlUnrealised = 0 ∧
+      estimate (p.flip t).1 t.price = -(p.flip t).1.feesEnter := by
+  rw [flip_next]
+  refine ⟨rfl, ?_⟩
+  have hpos : 0 < abs t.quantity - p.quantityAbs := by grind
+  exact ofTrade_estimate
+    { t with quantity := abs t.quantity - p.quantityAbs,
+             fees := t.fees * ((abs t.quantity - p.quantityAbs) / abs t.quantity) } hpos
+
+/-- One fill on a position, arm by arm: what the new position's unrealised PnL is, and whether the
+spec classifies the fill as opening. -/
+theorem update_mark (q : Position) (t : Trade) (hi : q.instrument = t.instrument) (p' : Position)
+    (h' : (q.updateFromTrade t).1 = some p') :
+    MarkOK p' (some ⟨t.price, if opens (some q) t then .openingFill else .fill⟩) := by
+  rcases updateFromTrade_cases q t hi with ⟨hs, he⟩ | ⟨hs, hlt, he⟩ | ⟨hs, heq, he⟩ | ⟨hs, hlt, he⟩
+  · -- increase
+    rw [he] at h'; simp only [Option.some.injEq] at h'; subst h'
+    have ho : opens (some q) t = false := by simp [opens, hs]
+    refine ⟨_, rfl, ?_, ?_⟩
+    · intro h; simp [ho] at h
+    · intro _; exact increase_upnl _ t
+  · -- reduce
+    rw [he] at h'; simp only [Option.some.injEq] at h'; subst h'
+    have ho : opens (some q) t = false := by
+      simp only [opens, decide_eq_false_iff_not, not_and]
+      intro _; grind
+    refine ⟨_, rfl, ?_, ?_⟩
+    · intro h; simp [ho] at h
+    · intro _; exact reduce_upnl _ t
+  · -- exact close: no position left
+    rw [he] at h'; cases h'
+  · -- flip: the remainder opens the next position
+    rw [he] at h'; simp only [Option.some.injEq] at h'; subst h'
+    have ho : opens (some q) t = true := by simp [opens, hs, hlt]
+    refine ⟨_, rfl, ?_, ?_⟩
+    · intro _
+      exact flip_estimate (q.pushTrade t.id) t (by simpa using hlt)
+    · intro h; simp [ho] at h
+
+theorem rel_fill {i : Nat} {c : InstrumentState} {s : SpecI} (h : Rel i c s) (t : Trade)
+    (hi : t.instrument = i) (hq : 0 < t.quantity) :
+    Rel i (c.updateFromTrade t) (s.fill t) := by
+  obtain ⟨hd, ha, hw, hm⟩ := h
+  have hw' : PMWF i (c.position.update t).1 := pm_update_wf hw hi hq
+  unfold InstrumentState.updateFromTrade SpecI.fill
+  cases hc : c.position.current with
+  | none =>
+    cases hs : s.pm.current with
+    | some q => rw [hc, hs] at ha; exact ha.elim
+    | none =>
+      have e1 : (c.position.update t).1 = ⟨some (Position.ofTrade t)⟩ := by
+        simp [PositionManager.update, hc]
+      have e2 : (s.pm.update t).1 = ⟨some (Position.ofTrade t)⟩ := by
+        simp [PositionManager.update, hs]
+      refine ⟨hd, ?_, hw', ?_⟩
+      · simp only [e1, e2]; exact agree_refl _
+      · intro p hp
+        simp only [e1, Option.some.injEq] at hp
+        subst hp
+        refine ⟨⟨t.price, .openingFill⟩, by simp [opens], ?_, ?_⟩
+        · intro _; exact ⟨rfl, ofTrade_estimate t hq⟩
+        · intro h; exact (h rfl).elim
+  | some p =>
+    cases hs : s.pm.current with
+    | none => rw [hc, hs] at ha; exact ha.elim
+    | some q =>
+      rw [hc, hs] at ha
+      simp only [Agree] at ha
+      have hpi : p.instrument = t.instrument := by rw [(hw p hc).instr, hi]
+      have hqi : q.instrument = t.instrument := by rw [ha] at hpi; exact hpi
+      have hupd : p.updateFromTrade t = q.updateFromTrade t := by
+        rw [ha]; exact updateFromTrade_pnl_irrelevant q _ t hqi
+      have e1 : (c.position.update t).1 = ⟨(q.updateFromTrade t).1⟩ := by
+        simp [PositionManager.update, hc, hupd]
+      have e2 : (s.pm.update t).1 = ⟨(q.updateFromTrade t).1⟩ := by
+        simp [PositionManager.update, hs]
+      refine ⟨hd, ?_, hw', ?_⟩
+      · simp only [e1, e2]; exact agree_refl _
+      · intro p' hp'
+        simp only [e1] at hp'
+        exact update_mark q t hqi p' hp'
+
+/-! ### Lifting to the engine (all instruments, all histories) -/
+
+/-- The property's quantifier: fills have a positive quantity (market events are unconstrained). -/
+def ValidEv : Ev → Prop
+  | .fill t => 0 < t.quantity
+  | .market _ => True
+
+instance : DecidablePred ValidEv := fun e => by
+  cases e <;> unfold ValidEv <;> infer_instance
+
+def ValidEvs (evs : List Ev) : Prop := ∀ e ∈ evs, ValidEv e
+
+instance (evs : List Ev) : Decidable (ValidEvs evs) := by
+  unfold ValidEvs; infer_instance
+
+theorem modifyAt_length {α : Type} (l : List α) (i : Nat) (f : α → α) :
+    (modifyAt l i f).length = l.length := by
+  unfold modifyAt; split <;> simp
+
+def RelAll (c : EngineState) (s : Spec) : Prop :=
+  c.length = s.length ∧ ∀ i st sp, c[i]? = some st → s[i]? = some sp → Rel i st sp
+
+theorem relAll_init (n : Nat) : RelAll (EngineState.init n) (Spec.init n) := by
+  refine ⟨by simp [EngineState.init, Spec.init], ?_⟩
+  intro i st sp h1 h2
+  simp only [EngineState.init, Spec.init, List.getElem?_replicate] at h1 h2
+  split at h1
+  · rename_i hlt
+    simp only [hlt, ↓reduceIte, Option.some.injEq] at h1 h2
+    subst h1; subst h2; exact rel_init i
+  · cases h1
+
+theorem relAll_process {c : EngineState} {s : Spec} (h : RelAll c s) (e : Ev) (he : ValidEv e) :
+    RelAll (c.process e) (s.process e) := by
+  obtain ⟨hl, hr⟩ := h
+  cases e with
+  | market ev =>
+    refine ⟨by simp [EngineState.process, EngineState.updateFromMarket, Spec.process,
+      modifyAt_length, hl], ?_⟩
+    intro i st sp h1 h2
+    simp only [EngineState.process, EngineState.updateFromMarket, Spec.process,
+      modifyAt_getElem?] at h1 h2
+    by_cases hi : i = ev.instrument
+    · simp only [hi, ↓reduceIte, Option.map_eq_some_iff] at h1 h2
+      obtain ⟨st0, hs0, rfl⟩ := h1
+      obtain ⟨sp0, hp0, rfl⟩ := h2
+      exact rel_market (hr i st0 sp0 (hi ▸ hs0) (hi ▸ hp0)) ev
+    · simp only [hi, ↓reduceIte] at h1 h2
+      exact hr i st sp h1 h2
+  | fill t =>
+    refine ⟨by simp [EngineState.process, EngineState.updateFromTrade, Spec.process,
+      modifyAt_length, hl], ?_⟩
+    intro i st sp h1 h2
+    simp only [EngineState.process, EngineState.updateFromTrade, Spec.process,
+      modifyAt_getElem?] at h1 h2
+    by_cases hi : i = t.instrument
+    · simp only [hi, ↓reduceIte, Option.map_eq_some_iff] at h1 h2
+      obtain ⟨st0, hs0, rfl⟩ := h1
+      obtain ⟨sp0, hp0, rfl⟩ := h2
+      exact rel_fill (hr i st0 sp0 (hi ▸ hs0) (hi ▸ hp0)) t hi.symm he
+    · simp only [hi, ↓reduceIte] at h1 h2
+      exact hr i st sp h1 h2
+
+theorem relAll_run {c : EngineState} {s : Spec} (h : RelAll c s) (evs : List Ev)
+    (hv : ValidEvs evs) : RelAll (c.run evs) (s.run evs) := by
+  induction evs generalizing c s with
+  | nil => exact h
+  | cons e evs ih =>
+    simp only [EngineState.run, Spec.run, List.foldl_cons]
+    exact ih (relAll_process h e (hv e (by simp))) (fun e' he' => hv e' (by simp [he']))
+
+theorem relAll_get {c : EngineState} {s : Spec} (h : RelAll c s) {i : Nat} {st : InstrumentState}
+    (hst : c[i]? = some st) : ∃ sp, s[i]? = some sp ∧ Rel i st sp := by
+  have hi : i < c.length := (List.getElem?_eq_some_iff.mp hst).1
+  have hi' : i < s.length := h.1 ▸ hi
+  exact ⟨s[i], by simp [hi'], h.2 i st s[i] hst (by simp [hi'])⟩
+
+/-- The spec's demand on a related pair: the estimate of the model's own position at the mark. -/
+theorem rel_spec_upnl {i : Nat} {c : InstrumentState} {s : SpecI} (h : Rel i c s) (p : Position)
+    (hp : c.position.current = some p) (m : Mark) (hm : s.mark = some m) :
+    s.upnl = some (estimate p m.price) := by
+  have ha := h.agree
+  rw [hp] at ha
+  cases hs : s.pm.current with
+  | none => rw [hs] at ha; exact ha.elim
+  | some q =>
+    rw [hs] at ha
+    simp only [Agree] at ha
+    unfold SpecI.upnl
+    rw [hs, hm, ha]
+    rfl
+
+theorem rel_upnl_none {i : Nat} {c : InstrumentState} {s : SpecI} (h : Rel i c s)
+    (hp : c.position.current = none) : c.upnl = none ∧ s.upnl = none := by
+  have ha := h.agree
+  rw [hp] at ha
+  cases hs : s.pm.current with
+  | some q => rw [hs] at ha; exact ha.elim
+  | none => simp [InstrumentState.upnl, SpecI.upnl, hp, hs]
 
 end BarterModel.Unrealised
